@@ -92,6 +92,15 @@ public final class Rat {
         Q x = parse(a);
         return new TupleValue(new Value[] { IntValue.gen(x.n.intValueExact()), IntValue.gen(x.d.intValueExact()) });
     }
+    // identity on functions / sequences, but returns the explicit (fully evaluated) representation: TLC keeps
+    // [x \in S |-> e] as a lazy closure and would re-evaluate e at every application
+    public static Value RForce(Value f) {
+        Value t = (Value) f.toTuple();
+        if (t != null) return t;
+        Value g = (Value) f.toFcnRcd();
+        if (g == null) throw new IllegalArgumentException("Rat: RForce of a non-function: " + f);
+        return g;
+    }
     public static Value RSum(Value s) {
         Value[] e = elems(s);
         // sum with a common-denominator accumulator: cheap for dyadic inputs
